@@ -62,13 +62,16 @@ func start(t *testing.T, prop, rule string) *H {
 		})
 		return h
 	}
-	if env.Light {
+	if env.Phase == "g126" {
+		h.R.Assume("a further process runs this check built by " + runtime.Version() + " (the newer Go release installed beside the default one) on the lighter workload: another compiler and runtime; its cases count as evaluations, not as additional distinct cases")
+	} else if env.Light {
 		h.R.Assume("a second process runs this check built for GOARCH=386 (int and uint are 32 bits wide) on a lighter workload: large enumerations sampled at a prime stride, rapid counts divided by 4, another seed; its cases count as evaluations, not as additional distinct cases")
 	}
 	if env.Phase == "plain" {
 		h.R.Assume("a second process runs the sequential families and the retention runs of this check in a build without the race detector (under -race sync.Pool drops a quarter of its entries at random, so pooled state never grows old there)")
 	}
 	t.Cleanup(func() {
+		h.R.ClearPending()
 		if err := h.R.WritePart(); err != nil {
 			t.Errorf("HARNESS-ERROR writing evidence part: %v", err)
 		}
@@ -131,6 +134,7 @@ func Rapid[C any](h *H, kind string, n int, gen func(*rapid.T) C, check func(C) 
 	var lastErr error
 	rapid.Check(quiet{h.t, &failed}, func(rt *rapid.T) {
 		c := gen(rt)
+		h.R.Pending(kind, c)
 		if err := safely(check, c); err != nil {
 			lastPath = h.R.SaveReplay(kind, c, err)
 			lastErr = err
